@@ -1,6 +1,6 @@
 (* MonthSpec.v — the shape prescribed by the specification describes exactly the days that exist:
    well-formedness, membership = InCal, natural length, length = number of dates in the month. *)
-From JV Require Import Sem Gen Spec.
+From JV Require Import Sem Gen Spec SpecX.
 From JV.Proofs Require Import SpecFacts GapFacts Cal Cmp MonthGeom Shape Month.
 Open Scope Z_scope.
 Ltac Zify.zify_post_hook ::= Z.to_euclidean_division_equations.
